@@ -306,6 +306,9 @@ func (prog Progress) focusedTransform(n datamodel.Node, na datamodel.NodeAssembl
 					}
 				}
 			} else { // for any other siblings of the target: just copy.
+				if v.IsAbsent() {
+					continue // an optional field of a typed struct that is not there: nothing to copy
+				}
 				if err := ma.AssembleKey().AssignNode(k); err != nil {
 					return err
 				}
